@@ -23,6 +23,12 @@ def run(ctx):
             umask = rng.choice([0, 0o022])
             intree = rng.random() < 0.5
             destk = rng.choice(['absent', 'absent', 'file', 'fifo', 'link-live', 'link-dangling', 'dir', 'same-kind'])
+            if 8 <= i < 18:
+                destk = 'absent' if i % 2 else destk
+                if i < 12:
+                    kind, rdev = 'chr', (0, 0)     # corpus: device number 0:0 (what overlay file systems use as a whiteout) is a device number like any other
+                else:
+                    kind = ['fifo', 'sock', 'chr'][i % 3]; mode = [0o2660, 0o6711, 0o4750][(i // 3) % 3]; rdev = (1, 7) if kind == 'chr' else (0, 0)      # corpus: set-id bits on nodes
             if i in (3, 6, 7):
                 destk = 'same-kind'             # corpus: an existing node of the same type and mode but ANOTHER device number
                 if i != 7: kind, rdev = 'chr', (1, 5)
